@@ -467,6 +467,36 @@ func simTail(s string, n int) string {
 // simCrashSite extracts the first gobgp frame of a panic trace as a stable signature.
 func simCrashSite(trace string) string {
 	lines := strings.Split(trace, "\n")
+	// synctest's end-of-bubble verdict: goroutines started in the bubble are still blocked
+	if strings.Contains(trace, "blocked goroutines remain") {
+		set := map[string]bool{}
+		for i, l := range lines {
+			if strings.HasPrefix(l, "goroutine ") && strings.Contains(l, "synctest bubble") && i+1 < len(lines) {
+				f := strings.TrimSpace(lines[i+1])
+				if j := strings.LastIndex(f, "("); j > 0 {
+					f = f[:j]
+				}
+				// the frame where it is blocked is runtime-ish for selects; take the first non-runtime frame
+				for k := i + 1; k < len(lines) && k < i+12; k += 2 {
+					g := strings.TrimSpace(lines[k])
+					if j := strings.LastIndex(g, "("); j > 0 {
+						g = g[:j]
+					}
+					if g != "" && !strings.HasPrefix(g, "runtime.") && !strings.HasPrefix(g, "internal/") && !strings.HasPrefix(g, "sync.") && !strings.HasPrefix(g, "time.") {
+						f = g
+						break
+					}
+				}
+				set[f] = true
+			}
+		}
+		var fs []string
+		for f := range set {
+			fs = append(fs, f)
+		}
+		sort.Strings(fs)
+		return "goroutine-leak:" + strings.Join(fs, "+")
+	}
 	inPanic := false
 	for _, l := range lines {
 		if strings.HasPrefix(l, "panic:") || strings.HasPrefix(l, "fatal error:") || strings.Contains(l, "runtime/debug.Stack") {
@@ -491,15 +521,19 @@ func simCrashSite(trace string) string {
 // (used by --replay and by the 5x confirmation of violations).
 func simReplayOne(t *testing.T, r *vr.Report, rp simReplay) {
 	os.Setenv("VERIF_SIM_CHECK_ALL", "1")
+	label := rp.Scenario
+	if rp.Arg != "" {
+		label += "[" + rp.Arg + "]"
+	}
 	pool := &simPool{n: 1}
 	pool.runAll([]simJob{{ID: 0, Scenario: rp.Scenario, Arg: rp.Arg, Hist: rp.Hist, WantKey: true}}, func(o simOutcome) {
 		r.Eval()
 		if o.crash != "" {
-			r.Violationf("daemon-crash:"+rp.Scenario+":"+simCrashSite(o.crash), rp, "daemon died: %s", simTail(o.crash, 3000))
+			r.Violationf("daemon-crash:"+label+":"+simCrashSite(o.crash), rp, "daemon died: %s", simTail(o.crash, 3000))
 			return
 		}
 		if o.res.Panic != "" {
-			r.Violationf("panic:"+rp.Scenario+":"+simCrashSite(o.res.Panic), rp, "panic: %s", simTail(o.res.Panic, 3000))
+			r.Violationf("panic:"+label+":"+simCrashSite(o.res.Panic), rp, "panic: %s", simTail(o.res.Panic, 3000))
 			return
 		}
 		for _, v := range o.res.Viol {
